@@ -5,6 +5,7 @@ import os
 import re
 
 import cexpr
+import common
 from common import (BuildError, REPO, cxx_build, drv, first_diff, gen_write, log, sh)
 
 HDR = os.path.join(REPO, "include/oneapi/tbb/concurrent_vector.h")
@@ -237,24 +238,32 @@ def run_grow(ck):
         order = claimed + [c for c in calls if c[4] is None]
         ml = ["reset"]
         for c in order:
-            ml.append("op %s" % ("push" if c[2] == "push" else "%s %d" % (c[2], c[3])))
+            ml.append("prog %s %d" % (c[2], c[3]))
+        nsteps = []
         for i, c in enumerate(order):
-            ml += ["s %d" % i] * (2 if c[2] == "to" else 1)
+            if False:
+                pass
+            else:
+                k = 2 if (c[2] == "to" and c[3] != 0) else 1
+                ml += ["s %d" % i] * k
+                nsteps.append(k)
         ml.append("tiles")
         mo = drv("c11st", "\n".join(ml) + "\n")
         steps = mo[1 + len(order):-1]
-        j, pred = 0, []
+        j = 0
         for i, c in enumerate(order):
-            k = 2 if c[2] == "to" else 1
-            pred.append(steps[j + k - 1].split())
+            k = max(nsteps[i], 1)
+            last = steps[j + k - 1]
             j += k
-        for c, p in zip(order, pred):
-            exp = ["2", "-", "-"] if c[4] is None else ["2", str(c[4]), str(c[5])]
-            if p[:3] != exp:
-                bad_corr.append((text, c, p))
+            if nsteps[i] == 0:
+                continue
+            left_claims = last.split(" | ")[1].split()
+            exp = ["0"] if c[4] is None else ["0", "%d:%d" % (c[4], c[5])]
+            if left_claims != exp:
+                bad_corr.append((text, c, last))
                 break
-        if mo[-1] != "1":
-            bad_corr.append((text, "model log does not tile", mo[-1]))
+        if mo[-1].split()[0] != "1" or mo[-1].split()[1] != str(size):
+            bad_corr.append((text, "model log does not tile / size differs", mo[-1]))
         ck.count(1, (len(per), tuple(sorted((c[2], c[4] is None) for c in calls))))
         ck.traces_validated += 1
         ck.sample({"scenario": [[list(o) for o in ops] for ops in per], "handed_out": [[c[0], c[2], c[3], c[4], c[5]] for c in claimed]}, cap=9)
@@ -263,6 +272,121 @@ def run_grow(ck):
     for text, out in bad_mon[:1]:
         ck.counterexample("grow-history", "concurrent growth history violates tiling/construct-once/address stability",
                           {"engine": "E-REAL", "harness": "harness/c11/grow.cpp", "stdin": text, "observed": out})
+
+
+def parse_shim_runs(out):
+    runs, cur = [], None
+    for l in out.split("\n"):
+        w = l.split()
+        if not w:
+            continue
+        if w[0] == "run":
+            cur = {"ev": [], "calls": [], "mon": "", "sched": []}
+        elif cur is None:
+            continue
+        elif w[0] == "e":
+            cur["ev"].append((int(w[1]), w[2], w[3], w[4], w[5]))
+        elif w[0] == "call":
+            cur["calls"].append((int(w[1]), int(w[2]), w[3], int(w[4]), w[5], w[6]))
+        elif w[0] == "mon":
+            cur["mon"] = " ".join(w[1:])
+        elif w[0] == "sched":
+            cur["sched"] = w[1:]
+        elif w[0] == "end":
+            runs.append(cur)
+            cur = None
+    return runs
+
+
+SHIM_CORPUS = [
+    [[("to", 5), ("push", 0)], [("by", 3), ("to", 20)], [("push", 0), ("by", 9)]],
+    [[("to", 9), ("to", 9)], [("to", 9), ("by", 1)], [("by", 8)]],           # embedded table limit (8) crossed by racing growers
+    [[("by", 16)], [("push", 0), ("push", 0), ("push", 0)], [("to", 17)]],
+    [[("push", 0)], [("push", 0)], [("push", 0)], [("by", 2)]],              # first-block election on an empty vector
+]
+
+
+def run_shim(ck):
+    """E-SHIM: the real header under the controlled scheduler; every access to my_size is replayed on the Lean model."""
+    exe = cxx_build("C11", "shim", ["harness/c11/shim.cpp", common.SHIM_SRC, STUBS], flags=["-O1", "-g", "-fno-access-control"] + common.SHIM_FLAGS)
+    quick = ck.tier == "quick"
+    rng = ck.rng
+    scs = list(SHIM_CORPUS)
+    bnd = [0, 1, 2, 3, 7, 8, 9, 15, 16, 17, 33, 64, 65]
+    for _ in range(12 if quick else 120):
+        T = rng.choice([2, 3, 3, 4])
+        scs.append([[(rng.choice(["push", "by", "to"]), rng.choice(bnd)) for _ in range(rng.randrange(1, 4))] for _ in range(T)])
+    bad_mon, bad_corr, nruns, dfs_runs = [], [], 0, 0
+    for si, sc in enumerate(scs):
+        text = "".join("prog " + " ".join("%s %d" % (k, a if k != "push" else 0) for k, a in p) + "\n" for p in sc)
+        rc, out, err = sh([exe, "rand", str(ck.seed * 1000 + si), "25" if quick else "100"], input=text, timeout=600)
+        for r in parse_shim_runs(out):
+            nruns += 1
+            if r["mon"] != "ok":
+                bad_mon.append((sc, r))
+            # access-level replay of the size word
+            ml = ["reset"] + ["prog " + " ".join("%s %d" % (k, a if k != "push" else 0) for k, a in p) for p in sc]
+            # the model must skip `by 0` calls explicitly (they do not touch the word): track per-thread op cursor
+            cursor = [0] * len(sc)
+            left = [list(p) for p in sc]
+
+            def skips(t):
+                out_ = []
+                pass
+                return out_
+            lines, expect = [], []
+            for (t, k, a, b, ok) in r["ev"]:
+                for sk in skips(t):
+                    lines.append(sk); expect.append(None)
+                lines.append("s %d" % t)
+                expect.append([k, a, b if k != "load" else "0", ok])
+                # advance the cursor when the op finished: decided by the model output below
+            mo = drv("c11st", "\n".join(ml + lines + ["tiles"]) + "\n")[1 + len(sc):]
+            d = None
+            for i, (ln, ex) in enumerate(zip(lines, expect)):
+                if ex is None:
+                    continue
+                got = mo[i].split(" | ")[0].split()
+                if got != ex:
+                    d = "access %d (%s): implementation %s, model %s" % (i, ln, " ".join(ex), mo[i])
+                    break
+                t = int(ln.split()[1])
+                opsleft = int(mo[i].split(" | ")[1].split()[0])
+                while len(left[t]) > opsleft:
+                    left[t].pop(0)
+            if d is None:
+                # final claims per thread must equal the ranges the real calls returned
+                for t in range(len(sc)):
+                    real = ["%s:%s" % (c[4], c[5]) for c in r["calls"] if c[0] == t and c[4] != "-"]
+                    lastline = [mo[i] for i, ln in enumerate(lines) if ln == "s %d" % t]
+                    modelc = lastline[-1].split(" | ")[1].split()[1:] if lastline else []
+                    if real != modelc:
+                        d = "thread %d ranges: implementation %s, model %s" % (t, real, modelc)
+                        break
+            ck.traces_validated += 1
+            if d:
+                bad_corr.append((sc, r, d))
+            ck.count(1, ("shim", len(sc), tuple(sorted(set(e[1] + e[4] for e in r["ev"])))))
+        if rc not in (0, 1, 3):
+            bad_mon.append((sc, {"mon": "harness crashed rc=%d %s" % (rc, err[-200:]), "sched": []}))
+    for sc in SHIM_CORPUS[: (2 if quick else 4)]:
+        text = "".join("prog " + " ".join("%s %d" % (k, a if k != "push" else 0) for k, a in p) + "\n" for p in sc)
+        rc, out, err = sh([exe, "dfs", "1" if quick else "2", "6000" if quick else "300000"], input=text, timeout=1500)
+        m = re.search(r"summary runs=(\d+) bad=(\d+)", out)
+        if m:
+            dfs_runs += int(m.group(1))
+        if rc != 0 or not m or m.group(2) != "0":
+            rs = parse_shim_runs(out)
+            bad_mon.append((sc, rs[-1] if rs else {"mon": "harness rc=%d" % rc, "sched": []}))
+    ck.evaluations += dfs_runs
+    ck.extra["shim_schedules"] = {"random_runs": nruns, "dfs_runs": dfs_runs}
+    ck.oblige("corr:every access to my_size under E-SHIM replays on the Lean size-word model (kind, values, CAS outcome, ranges)", "correspondence",
+              not bad_corr, "" if not bad_corr else "%s | scenario %s" % (bad_corr[0][2], bad_corr[0][0]))
+    ck.oblige("monitor:E-SHIM growers (segment election, table switch, waits): tile / constructed once / stable addresses / no deadlock", "correspondence",
+              not bad_mon, "" if not bad_mon else "%s | scenario %s" % (bad_mon[0][1]["mon"], bad_mon[0][0]))
+    for sc, r in bad_mon[:1]:
+        ck.counterexample("shim-growers:" + (r["mon"].split(" ")[0] if r["mon"] else "?"), "concurrent growers: %s under schedule %s" % (r["mon"], " ".join(r["sched"][:120])),
+                          {"engine": "E-SHIM", "harness": "harness/c11/shim.cpp", "scenario": sc, "schedule": r["sched"], "monitor": r["mon"]})
 
 
 def run(ck):
@@ -283,10 +407,17 @@ def run(ck):
     run_pure(ck)
     run_gtal(ck)
     run_grow(ck)
+    run_shim(ck)
 
 
 def replay(ck, obj):
     r = obj["replay"]
+    if r.get("engine") == "E-SHIM":
+        exe = cxx_build("C11", "shim", ["harness/c11/shim.cpp", common.SHIM_SRC, STUBS], flags=["-O1", "-g", "-fno-access-control"] + common.SHIM_FLAGS)
+        text = "".join("prog " + " ".join("%s %d" % (k, a if k != "push" else 0) for k, a in p) + "\n" for p in r["scenario"])
+        rc, out, err = sh([exe, "replay", ",".join(r["schedule"])], input=text, timeout=300)
+        print(out[-2000:])
+        return 0 if rc == 0 else 1
     name = os.path.basename(r["harness"])[:-4]
     flags = {"gtal": ["-O1", "-fno-access-control"], "grow": ["-O1", "-g", "-pthread"], "pure": ["-O1", "-fno-access-control"]}[name]
     exe = cxx_build("C11", name, [r["harness"], STUBS], flags=flags)
